@@ -286,7 +286,20 @@ func c19Run(sc *c19Scen, home string) (res c19Res) {
 			res.Setup = "bad broken spec " + sc.Broken
 			return
 		}
-		os.RemoveAll(c19Dirs[bd])
+		if kind == "linkdir" {
+			// the configuration directory itself is a symbolic link to a real directory elsewhere (dotfiles layout): watched like any other
+			real := fmt.Sprintf("real-dir-%d", bd)
+			if err = os.Rename(c19Dirs[bd], real); err == nil {
+				abs, _ := filepath.Abs(real)
+				err = os.Symlink(abs, c19Dirs[bd])
+			}
+			if err != nil {
+				res.Setup = err.Error()
+				return
+			}
+		} else {
+			os.RemoveAll(c19Dirs[bd])
+		}
 		switch kind {
 		case "dangling":
 			err = os.Symlink("does-not-exist", c19Dirs[bd])
@@ -341,7 +354,7 @@ func c19Run(sc *c19Scen, home string) (res c19Res) {
 				res.Watches = n
 			}
 		}
-		if res.Watches >= 4 || (sc.Broken != "" && res.Watches >= 3) {
+		if res.Watches >= 4 || (sc.Broken != "" && !strings.HasSuffix(sc.Broken, ":linkdir") && res.Watches >= 3) {
 			break
 		}
 	}
@@ -354,7 +367,7 @@ func c19Run(sc *c19Scen, home string) (res c19Res) {
 		return
 	}
 	for i, d := range c19Dirs {
-		if sc.Broken != "" && strings.HasPrefix(sc.Broken, fmt.Sprint(i)+":") {
+		if sc.Broken != "" && strings.HasPrefix(sc.Broken, fmt.Sprint(i)+":") && !strings.HasSuffix(sc.Broken, ":linkdir") {
 			continue // cannot be watched by anybody
 		}
 		if err = ref.Add(d); err != nil {
